@@ -44,6 +44,10 @@ CLAIMED = {
      text='iota2 has dimension length^-2 field^0 and flips sign under mirror (both branches) and toroidal reversal (symmetric branch), for every grid size and input. Field-reversal invariance and origin independence are REFUTED on the real code (known findings).',
      note='Harness only: field-period representation, continuity under infinitesimal symmetry breaking, convergence in nphi. The reduced solve and the trapezoid rule enter through their defining equations / weights (validated each run).',
      ref='DESIGN.md section 6 C19'),
+ 'C03': dict(level='proof', technique='Coq theorems (field, Leibniz rule in a differential ring, induction over the trapezoid recurrence) on the program regenerated from init_axis and r1_diagnostics; independent Cartesian numeric oracle',
+     text='Right-handed orthonormal Frenet frame, tangent direction, Frenet-Serret equations with the returned curvature and torsion (continuum model), G0 = sG B0 L/(2 pi), Boozer angle zero at phi = 0 / strictly increasing / spanning one period (every grid size), d_varphi_d_phi proportional to the arclength element, elongation = ratio of singular values >= 1.',
+     note='Hypotheses: admissible axis (R0 > 0, curvature != 0), harmonic sums are derivatives of each other (checked term by term numerically; the init_axis_term program is translated). Not proved: quadrature error rate; min_R0, max_elongation depend on the spectral-minimum oracle.',
+     ref='DESIGN.md section 6 C03'),
 }
 checks, na = [], []
 for p in props:
